@@ -624,22 +624,31 @@ func checkPackageLinks(root string) error {
 
 // hashPackageDir is dirhash.HashDir with one difference: a symlink to a
 // directory, which is a valid member of a package but cannot be read as a
-// file, contributes its target text instead of making the hash fail.
+// file, contributes its target text instead of making the hash fail. It is
+// entered under its name with a slash appended, which no file can be called,
+// so that a regular file holding the same text hashes differently.
 func hashPackageDir(dir string) (string, error) {
 	files, err := dirhash.DirFiles(dir, "")
 	if err != nil {
 		return "", err
 	}
-	return dirhash.Hash1(files, func(name string) (io.ReadCloser, error) {
+	dirLinks := make(map[string]string)
+	for i, name := range files {
 		path := filepath.Join(dir, name)
 		if info, err := os.Stat(path); err == nil && info.IsDir() {
 			target, err := os.Readlink(path)
 			if err != nil {
-				return nil, err
+				return "", err
 			}
+			files[i] = name + "/"
+			dirLinks[files[i]] = target
+		}
+	}
+	return dirhash.Hash1(files, func(name string) (io.ReadCloser, error) {
+		if target, ok := dirLinks[name]; ok {
 			return io.NopCloser(strings.NewReader("symlink to directory " + target)), nil
 		}
-		return os.Open(path)
+		return os.Open(filepath.Join(dir, name))
 	})
 }
 
